@@ -358,8 +358,11 @@ def orderCancelling (w : World) (oid : Nat) : World := w.orderUpdateStatus oid .
 def orderUpdating (w : World) (oid : Nat) : World := w.orderUpdateStatus oid .updating
 def orderReplacing (w : World) (oid : Nat) : World := w.orderUpdateStatus oid .replacing
 
+/-- `violation(msg)`: only an order that has not been sent (no status yet, or refused before) is
+    marked; an order at the exchange is left as it is (fix: a refused request changes nothing) -/
 def orderViolation (w : World) (oid : Nat) (msg : String) : World :=
-  (w.orderUpdateStatus oid .violation).modifyOrder oid fun o => { o with ud := {}, violationMsg := some msg }
+  if (w.order! oid).status.isSome ∧ (w.order! oid).status ≠ some .violation then w
+  else (w.orderUpdateStatus oid .violation).modifyOrder oid fun o => { o with ud := {}, violationMsg := some msg }
 
 /-! ### BetfairOrder request guards (order.py) -/
 
